@@ -1,4 +1,5 @@
 import WebpVerif.Model.Container
+import WebpVerif.Lemmas.OpenFile
 import WebpVerif.Lemmas.Riff
 
 /-!
@@ -8,8 +9,9 @@ import WebpVerif.Lemmas.Riff
 This file proves the field-level facts for EVERY field value (14-bit VP8/VP8L sizes incl. 16384,
 24-bit canvas sizes, flag bytes, durations, loop counts, chunk-size rounding) and the memory-limit
 rule of the metadata accessors, and a complete parse∘print theorem for the two simple layouts.
-The general scan-loop theorem over arbitrary chunk orders is stated (`scan_full`) and validated by
-the correspondence run; see DESIGN.md.
+The scan loop over arbitrary chunk orders (`scan_full`), the whole-file theorem for extended
+stills (`open_extended_still`) and the exactness of the metadata accessors (`metadata_exact`) are
+proved in Lemmas/Scan.lean and Lemmas/OpenFile.lean.
 -/
 namespace C08
 open Container
@@ -88,22 +90,53 @@ theorem or_insert_other (c : Chunks) (k k' : List Nat) (v' : Nat × Nat) (hne : 
 /-- `output_buffer_size` = width × height × (4 if has_alpha else 3) -/
 theorem buffer_size (i : Info) : outputBufferSize i = i.width * i.height * (if i.hasAlpha then 4 else 3) := rfl
 
-/-- The general statement, kept as a proposition (validated by the correspondence run over
-    generated layouts, not yet proved): scanning any sequence of well-formed non-ANMF chunks
-    registers, for every known fourcc, the payload range of its FIRST occurrence. -/
-def scan_full : Prop :=
-  ∀ (pre : List Nat) (cs : List (List Nat × List Nat)) (maxPos : Nat),
-    (∀ c ∈ cs, EncContainer.ChunkOk c ∧ c.1 ≠ ANMF) →
-    pre.length + (cs.flatMap fun c => EncContainer.chunkBytes c.1 c.2).length < maxPos →
+/-- **Scan loop, any chunk order**: scanning any sequence of well-formed non-ANMF chunks - known
+    ones in any order and multiplicity, unknown ones anywhere, odd sizes padded - terminates
+    without error and registers, for every known fourcc, the payload range of its FIRST occurrence. -/
+theorem scan_full (pre : List Nat) (cs : List (List Nat × List Nat)) (maxPos : Nat)
+    (hall : ∀ c ∈ cs, EncContainer.ChunkOk c ∧ c.1 ≠ ANMF)
+    (hmax : pre.length + (ScanProof.layout cs).length < maxPos) :
     ∃ s r, scanLoop maxPos (cs.length + 1)
         { position := pre.length, chunks := [], numFrames := 0, loopDuration := 0, isLossy := false }
-        { data := pre ++ cs.flatMap (fun c => EncContainer.chunkBytes c.1 c.2), pos := pre.length } = .ok (s, r) ∧
-      s.numFrames = 0 ∧
-      ∀ k ∈ known, s.chunks.get? k =
-        (let rec go (base : Nat) : List (List Nat × List Nat) → Option (Nat × Nat)
-          | [] => none
-          | c :: rest => if c.1 = k then some (base + 8, base + 8 + c.2.length)
-                         else go (base + 8 + c.2.length + c.2.length % 2) rest
-         go pre.length cs)
+        { data := pre ++ ScanProof.layout cs, pos := pre.length } = .ok (s, r) ∧
+      s.numFrames = 0 ∧ ∀ k ∈ known, s.chunks.get? k = ScanProof.firstRange k pre.length cs := by
+  obtain ⟨s, r, e1, e2, _, _, e5⟩ := ScanProof.scanLoop_spec maxPos cs pre
+    { position := pre.length, chunks := [], numFrames := 0, loopDuration := 0, isLossy := false } (cs.length + 1)
+    hall hmax (Nat.le_refl _) rfl
+  exact ⟨s, r, e1, e2, fun k hk => by rw [e5 k hk]; rfl⟩
+
+/-- **Whole file, extended still**: `WebPDecoder::new` on RIFF header + VP8X chunk (any flags
+    byte without the animation bit, any reserved bytes, any canvas up to 2^24 per side) + ANY
+    sequence of further chunks that contains what the flags promise and exactly one kind of image
+    chunk succeeds and reports the canvas size, the alpha flag, lossy-ness, and for every known
+    fourcc the payload range of its first occurrence. -/
+theorem open_extended_still (flags r0 r1 r2 cw ch : Nat) (cs : List (List Nat × List Nat))
+    (hfl : flags < 256) (hr : r0 < 256 ∧ r1 < 256 ∧ r2 < 256)
+    (hcw : 1 ≤ cw ∧ cw ≤ 2 ^ 24) (hch : 1 ≤ ch ∧ ch ≤ 2 ^ 24) (hprod : cw * ch < 2 ^ 32)
+    (hall : ∀ c ∈ cs, EncContainer.ChunkOk c ∧ c.1 ≠ ANMF)
+    (hsize : 22 + (ScanProof.layout cs).length < 2 ^ 32)
+    (hanim : flags / 2 % 2 = 0)
+    (hicc : flags / 32 % 2 = 1 → ScanProof.has ICCP cs = true) (hexif : flags / 8 % 2 = 1 → ScanProof.has EXIF cs = true)
+    (hxmp : flags / 4 % 2 = 1 → ScanProof.has XMP cs = true) (hone : ScanProof.has VP8 cs ≠ ScanProof.has VP8L cs) :
+    ∃ info, openFile (ScanProof.extendedFile flags r0 r1 r2 cw ch cs) = .ok info ∧
+      info.width = cw ∧ info.height = ch ∧ info.extended = true ∧ info.animation = false ∧
+      info.isLossy = ScanProof.has VP8 cs ∧ info.hasAlpha = (flags / 16 % 2 == 1) ∧ info.numFrames = 0 ∧ info.loopCount = 1 ∧
+      ∀ k ∈ known, info.chunks.get? k = ScanProof.firstRange k 30 cs :=
+  ScanProof.open_extended flags r0 r1 r2 cw ch cs hfl hr hcw hch hprod hall hsize hanim hicc hexif hxmp hone
+
+/-- **Metadata accessors on such a file** return exactly the payload of the first chunk of that
+    name, `MemoryLimitExceeded` iff it is larger than the limit, `None` iff no such chunk exists. -/
+theorem metadata_exact (flags r0 r1 r2 cw ch : Nat) (cs : List (List Nat × List Nat)) (info : Info) (k : List Nat) (limit : Nat)
+    (hall : ∀ c ∈ cs, EncContainer.ChunkOk c) (hinfo : info.chunks.get? k = ScanProof.firstRange k 30 cs) :
+    (ScanProof.firstRange k 30 cs = none → metadata (ScanProof.extendedFile flags r0 r1 r2 cw ch cs) info k limit = .ok none) ∧
+    (∀ a b, ScanProof.firstRange k 30 cs = some (a, b) → ∃ c ∈ cs, c.1 = k ∧
+      (c.2.length > limit → metadata (ScanProof.extendedFile flags r0 r1 r2 cw ch cs) info k limit = .error .memoryLimitExceeded) ∧
+      (c.2.length ≤ limit → metadata (ScanProof.extendedFile flags r0 r1 r2 cw ch cs) info k limit = .ok (some c.2))) :=
+  ScanProof.metadata_exact flags r0 r1 r2 cw ch cs info k limit hall hinfo
+
+/-- non-vacuity: a concrete extended file with an unknown chunk, an EXIF chunk of odd size, a
+    VP8L chunk and a second EXIF chunk meets the hypotheses; the first EXIF wins -/
+example : ScanProof.firstRange EXIF 30 [(fourccOf "JUNK", [1, 2, 3]), (EXIF, [9]), (VP8L, [0x2f, 0, 0, 0, 0]), (EXIF, [7, 7])]
+    = some (50, 51) := by decide
 
 end C08
